@@ -14,6 +14,7 @@ import JsonV.Lemmas.CmpSort
 import JsonV.Gen.Straight
 import JsonV.Model.Canon
 import JsonV.Lemmas.CanonForm
+import JsonV.Lemmas.CanonParse
 
 namespace JsonV.Props.C13
 open JsonV JsonV.Model.Utf8 JsonV.Model.Compare JsonV.Model.Reorder JsonV.Spec.Utf16Order
@@ -203,7 +204,7 @@ theorem names the law it needs as a hypothesis.  All statements are for ALL byte
 
 section Canonicalize
 open JsonV.Canon JsonV.Fmt JsonV.Model.Quote JsonV.Spec.StringSpec
-open JsonV.Lemmas.CanonTree JsonV.Lemmas.CanonAtom JsonV.Lemmas.CanonSort JsonV.Lemmas.CanonForm
+open JsonV.Lemmas.CanonTree JsonV.Lemmas.CanonAtom JsonV.Lemmas.CanonSort JsonV.Lemmas.CanonForm JsonV.Lemmas.CanonParse
 
 /-- What a successful call returns: the compact rendering of the canonical tree of a strict input. -/
 theorem canonicalize_eq_some (fp : FloatCodec) (b c : Bytes) :
@@ -384,6 +385,42 @@ example :
     (parseText [0x7b, 0x22, 0x62, 0x22, 0x3a, 0x22, 0x5c, 0x75, 0x30, 0x30, 0x34, 0x31, 0x22, 0x2c, 0x20, 0x22, 0x61, 0x22,
         0x20, 0x3a, 0x20, 0x31, 0x7d]).map (fun x => (x.toks, strict x)) = some (t.toks, true) ∧ strict u = true := by
   decide +kernel
+
+/-- A law of the float parameter used by `canon_no_ws`: what `AppendFloat` emits is lexically one JSON number
+(C10 proves `float_is_number` for well-formed decompositions against its own recogniser; the bridge to the
+tokenizer's `scanNum` is validated by the harness's token scanner, not proved). -/
+def NumLex (fp : FloatCodec) : Prop := ∀ f, (Tok.num (fp.append f)).valid = true
+
+/-- `canon_no_ws`: the output is the bare concatenation of its tokens and the `,` / `:` the grammar requires, and
+none of these lexemes other than a string literal contains a whitespace byte. -/
+theorem canon_no_ws (fp : FloatCodec) (hl : NumLex fp) (b c : Bytes) (h : canonicalize fp b = some c) :
+    ∃ ts, c = ((punct [.top0] ts).map Lex.bytes).flatten ∧
+      ∀ l ∈ punct [.top0] ts, (∀ raw, l ≠ .tok (.str raw)) → ∀ x ∈ l.bytes, isWs x = false := by
+  obtain ⟨t, hp, _, rfl⟩ := (canonicalize_eq_some fp b c).mp h
+  have hv := (parseText_wellNested b t hp).2.1
+  refine ⟨(canonTree fp t).toks, flatWs_compact _ _, ?_⟩
+  intro l hlm hs
+  refine lexeme_no_ws l ?_ hs
+  rcases punct_mem _ _ l hlm with ⟨d, rfl⟩ | ⟨k, hk, rfl⟩
+  · rfl
+  · obtain ⟨k0, hk0, e⟩ := List.mem_map.mp ((toks_canonTree fp t).mem_iff.mp hk)
+    have v0 := hv k0 hk0
+    subst e
+    cases k0 with
+    | str raw => exact absurd rfl (hs _)
+    | num lit =>
+      show (Tok.num (canonNum fp lit)).valid = true
+      rw [canonNum_eq]
+      split
+      · exact v0
+      · exact hl _
+    | bo => rfl
+    | eo => rfl
+    | ba => rfl
+    | ea => rfl
+    | null => rfl
+    | tru => rfl
+    | fls => rfl
 
 end Canonicalize
 
